@@ -284,7 +284,10 @@ func vSortedKeys[V any](m map[string]V) []string {
 }
 
 // vResetGlobals restores package-level state that a real process would start with.
+var vOrigClipboard = writeToClipboard
+
 func vResetGlobals() {
 	onExitFuncs = nil
+	writeToClipboard = vOrigClipboard
 	vSetHashStep(10 * 1024 * 1024)
 }
